@@ -344,8 +344,9 @@ class Vectorize(Contract):
                                                         z3.Select(cur, c) == vec_after(sig, i, S.old["vec"], c)))))
         if S.old["T"] is not None:
             j = sig.qvar("vr")
+            row = arr.row if arr.row is not None else ival(i)
             out.append(("C09.other-rows-untouched", z3.ForAll([j], z3.Implies(
-                j != ival(i), z3.Select(arr.cell.content, j) == z3.Select(S.old["T"], j)))))
+                j != row, z3.Select(arr.cell.content, j) == z3.Select(S.old["T"], j)))))
         out += layout_installed(sig, hv_state(I))
         return out
 
@@ -405,7 +406,6 @@ class Tensorize(Contract):
     global_writes_allowed = (HVQ,)
     qualname = "nasim.envs.state.State.tensorize"
     tags = {"": ("C09", "C04", "C19", "C01", "C08")}
-    bounded = False
 
     def setup(self, I, variant):
         sig = V.Sigma(concrete=I.ext_state.get("concrete"))
@@ -458,7 +458,6 @@ class GenerateInitialState(Contract):
     global_writes_allowed = (HVQ,)
     qualname = "nasim.envs.state.State.generate_initial_state"
     tags = {"": ("C09", "C04", "C19", "C01")}
-    bounded = False
 
     def setup(self, I, variant):
         sig = V.Sigma(concrete=I.ext_state.get("concrete"))
